@@ -10,3 +10,10 @@ MUTANTS = [
     {'name': 'revert: single best variant', 'revert': 'single best variant', 'expect': 'F8b'}]
 
 NEUTRALS = [{'name': 'exclusion tuple reordered', 'file': 'partitura/score.py', 'old': '                            Repeat,\n                            Ending,\n                            ToCoda,', 'new': '                            Ending,\n                            Repeat,\n                            ToCoda,'}]
+
+# changes made by sub-agents that were given only the property text (see /verif/seeded/<id>/): each must stay reported
+SEEDED = [
+    {'name': 'seeded change C09-r2', 'seed': 'C09-r2', 'expect': '|MAP-scope|'},
+    {'name': 'seeded change C09', 'seed': 'C09', 'expect': '|REFSET|'},
+]
+MUTANTS += SEEDED
